@@ -233,7 +233,55 @@ def rw_dict_key(e):
 # (cause, rewrite, mode).  mode "wording": the rewrite must leave the description as it is (checked on the tree under test) and
 # may change the logic -- it yields the expression that the wording reads as;  mode "layout": the rewrite must leave the logic
 # as it is (checked over the value domain) and the description up to its layout (same words in the same order).
-REWRITES = [("negated-composite", rw_negated_composite, "wording"), ("empty-composite", rw_empty_composite, "wording"),
+def _positions(e, path=(), inside=False):
+    """every sub-expression of e with the path (indexes in sub_args order) leading to it and whether it lies inside a container
+    that conjugates the description of what it holds"""
+    yield path, e, inside
+    if not G.is_value_arg(e):
+        for i, sub in enumerate(G.sub_args(e)):
+            if not G.is_value_arg(sub):
+                yield from _positions(sub, path + (i,), inside or e[0] in CONTAINERS or e[0] == "has_length")
+
+
+def _replace_at(e, path, new):
+    if not path:
+        return new
+    sub = G.sub_args(e)[path[0]]
+    return G._replace_arg(e, path[0], _replace_at(sub, path[1:], new))
+
+
+def rw_container_scope(e):
+    """Open cause F25: once a sentence is conjugated, `C(x rel y)` and `C(x) rel y` read alike (C a container: has_item,
+    has_all_items, has_entry k, a type matcher).  Canonical form: every trailing operand is pulled INTO the leading container
+    as long as the description of the whole expression stays word for word the same -- inside a conjugating container only."""
+    cur = e
+    for _ in range(40):
+        d0 = describe_full(cur, False, False)[0]
+        for path, sub, inside in _positions(cur):
+            moved = None
+            # (only INSIDE a conjugating container: at the outer level the operands after the first keep their infinitive --
+            #  `... whose value is 1 or to be an integer` -- and the scope is readable)
+            if inside and sub[0] in ("all_of", "any_of") and len(sub[1]) >= 2:
+                first = sub[1][0]
+                if not G.is_value_arg(first) and first[0] in CONTAINERS and len(G.sub_args(first)) == 1:
+                    x = G.sub_args(first)[0]
+                    inner = list(x[1]) if (not G.is_value_arg(x) and x[0] == sub[0]) else [x]
+                    moved = G._replace_arg(first, 0, (sub[0], inner + sub[1][1:]))
+            if moved is not None:
+                cand = _replace_at(cur, path, moved)
+                try:
+                    same = describe_full(cand, False, False)[0] == d0
+                except Exception:
+                    same = False
+                if same:
+                    cur = cand
+                    break
+        else:
+            return cur
+    return cur
+
+
+REWRITES = [("container-scope", rw_container_scope, "wording"), ("negated-composite", rw_negated_composite, "wording"), ("empty-composite", rw_empty_composite, "wording"),
             ("dict-key", rw_dict_key, "wording"), ("negated-operand", rw_negated_operand, "layout"),
             ("wrapped-composite", rw_wrapped_operand, "layout")]
 
@@ -316,6 +364,26 @@ def multiplicity_variants_at_root(e):
         once = [x for i, x in enumerate(e[1]) if not any(type(y) is type(x) and y == x for y in e[1][:i])]
         if len(once) < len(e[1]):
             yield (e[0], once)
+
+
+CONTAINERS = ("has_item", "has_all_items", "has_entry") + tuple(G.TYPES)
+
+
+def scope_variants_at_root(e):
+    """The scope of a container (has_item, has_all_items, has_entry k, a type matcher) moved by one operand: the last operand of
+    the composite inside the container is taken out of it, and back.   C(rel[a.., z])  <->  rel[C(rel[a..]) , z]"""
+    op = e[0]
+    if op in CONTAINERS:
+        args = G.sub_args(e)
+        if len(args) == 1 and not G.is_value_arg(args[0]) and args[0][0] in ("all_of", "any_of") and len(args[0][1]) >= 2:
+            rel, ops = args[0][0], args[0][1]
+            inner = ops[0] if len(ops) == 2 else (rel, ops[:-1])
+            yield (rel, [G._replace_arg(e, 0, inner), ops[-1]])
+    if op in ("all_of", "any_of") and len(e[1]) >= 2:
+        first = e[1][0]
+        if not G.is_value_arg(first) and first[0] in CONTAINERS and len(G.sub_args(first)) == 1:
+            x = G.sub_args(first)[0]
+            yield G._replace_arg(first, 0, (op, [x] + e[1][1:]))
 
 
 def key_variants_at_root(e):
@@ -424,6 +492,8 @@ WITNESSES = {
     "negated-operand": (("any_of", [("not_", ("any_of", [("not_", GT0), LT10])), ("not_", EQ5)]),
                         ("all_of", [GT0, ("not_", ("all_of", [LT10, EQ5]))]), 0),
     "empty-composite": (("all_of", []), ("any_of", []), None),
+    "container-scope": (("has_item", ("any_of", [("has_entry", "a", ("equal_to", 1)), ("is_integer", None)])),
+                        ("has_item", ("has_entry", "a", ("any_of", [("equal_to", 1), ("is_integer", None)]))), [5]),
     "dict-key": (("equal_to", {1: 2}), ("equal_to", {"1": 2}), {1: 2}),
     "wrapped-composite": (("all_of", [("hide", ("any_of", [("$", 1), ("$", 2)])), ("$", 3)]),
                           ("any_of", [("$", 1), ("hide", ("all_of", [("$", 2), ("$", 3)]))]), 1),
@@ -493,6 +563,7 @@ def check(run):
     # lists that differ by the multiplicity of an item only (has_only_items compares multisets)
     # entries reachable by an int key / index only, or by the string of the same digits only
     dom = dom + [{"0": "a"}, {0: "a"}, {"1": 1}, {"-1": 1}, {-1: 1}, {"a": {"0": 1}}, {"a": [1]}, {"0": {"a": 1}}, [{"a": 1}]]
+    dom = dom + [["ab"], ["ab", "a"], ["abc", 1], {"a": "ab"}, {"a": ["ab"]}]      # an item / entry whose own length differs from its container's
     dom = dom + [[1, 1], [1, 1, 2], [2, 2, 1], [None, None], ["a", "a"], [True, True, False], [0, 0], [None, 2, 2], [10, 10, 1]]
 
     # ---- known findings: replay every recorded witness on the implementation
@@ -535,6 +606,20 @@ def check(run):
                 run.evaluations += 1
                 run.count("fragment_expected_verb_phrase_family")
                 groups.setdefault(describe_full(e, False, False)[0], {}).setdefault(accepted(e, dom), []).append(e)
+    # the scope of a container at the OUTER level: C(rel[x, z]) against rel[C(x), z] for every container, both connectives and
+    # every kind of operand z (negated ones included): never the same description
+    tails = [("equal_to", 1), ("is_none",), ("is_integer", None), ("has_length", ("equal_to", 2)), ("has_item", ("equal_to", 1)),
+             ("starts_with", "a"), ("is_between", 0, 2), ("has_entry", "a", None), ("has_items", [1]), ("is_in", [1, 2]),
+             ("greater_than", 0), ("has_all_items", ("equal_to", 1)), ("has_only_items", [1])]
+    tails = tails + [("not_", t) for t in tails]
+    for cont in (("has_item",), ("has_all_items",), ("has_entry", "a"), ("is_list",), ("is_str",), ("is_dict",)):
+        for rel in ("all_of", "any_of"):
+            for z in tails:
+                x = ("starts_with", "a") if cont[0] != "is_dict" else ("has_entry", "b", None)
+                for e in (cont + ((rel, [x, z]),), (rel, [cont + (x,), z])):
+                    run.evaluations += 1
+                    run.count("fragment_outer_scope_family")
+                    groups.setdefault(describe_full(e, False, False)[0], {}).setdefault(accepted(e, dom), []).append(e)
     for i in range(n_frag):
         if i % 8 == 7:
             e = gen_negated_composite(run.rng)
@@ -555,9 +640,11 @@ def check(run):
         run.count("fragment_multiplicity_neighbours", len(mult))
         keyv = list(variants(e, key_variants_at_root))
         run.count("fragment_key_type_neighbours", len(keyv))
-        must = mult[:3] + keyv[:3] + must
+        scopev = list(variants(e, scope_variants_at_root))
+        run.count("fragment_scope_neighbours", len(scopev))
+        must = mult[:3] + keyv[:3] + scopev[:3] + must
         run.count("fragment_negation_neighbours", len(must))
-        for v in must[:10] + (vs if len(vs) <= 8 else run.rng.sample(vs, 8)):
+        for v in must[:13] + (vs if len(vs) <= 8 else run.rng.sample(vs, 8)):
             run.count("fragment_neighbours")
             run.evaluations += 1
             groups.setdefault(describe_full(v, False, False)[0], {}).setdefault(accepted(v, dom), []).append(v)
